@@ -208,6 +208,25 @@ func checkOutcome(finishers []*Node, epoch uint32, allParts []*pdkg.Participant,
 	return nil
 }
 
+// transitionSkewOnly recognises the listed finding: the groups differ in nothing but the transition time, and by a few periods
+// only (each node derives it from its own clock at completion). A transition time that is off by more (e.g. left at the
+// genesis time) is another defect.
+func transitionSkewOnly(detail string, periodS uint32) bool {
+	if !strings.Contains(detail, "transition time") || strings.Contains(detail, ";") {
+		return false
+	}
+	var a, b int64
+	i := strings.Index(detail, "transition time ")
+	if _, err := fmt.Sscanf(detail[i:], "transition time %d != %d", &a, &b); err != nil {
+		return false
+	}
+	d := a - b
+	if d < 0 {
+		d = -d
+	}
+	return d <= 3*int64(periodS)
+}
+
 func permFrom(seed uint64, n int) []int {
 	b := fx.Bytes(seed, "perm", n*2+2)
 	p := make([]int, n)
@@ -301,7 +320,7 @@ func TestC06FirstDKG(t *testing.T) {
 	// The start of an execution is announced by the leader with a grace period; a node that hears of it later than that starts
 	// its phases late. The slowest generated link (900 ms + 150 ms) must stay below the grace period, as it does with the
 	// daemon's defaults (seconds), otherwise the schedule breaks the protocol's synchrony assumption by construction.
-	DKGConf.KickoffGracePeriod = 1300 * time.Millisecond
+	DKGConf.KickoffGracePeriod = time.Duration(stats.N("VERIF_C06_GRACE_MS", 1300)) * time.Millisecond
 	var nobody, total atomic.Int64
 	defer func() {
 		if n, k := nobody.Load(), total.Load(); n*3 > k {
@@ -343,6 +362,7 @@ func TestC06FirstDKG(t *testing.T) {
 			addrs = append(addrs, nd.Addr)
 		}
 		bus.Policy = del.policy(seed, addrs)
+		bus.AsyncBundles = true
 		listed := make([]*pdkg.Participant, n)
 		for i, j := range perm {
 			listed[i] = nodes[j].Part
@@ -444,7 +464,7 @@ func TestC06Reshare(t *testing.T) {
 	// The start of an execution is announced by the leader with a grace period; a node that hears of it later than that starts
 	// its phases late. The slowest generated link (900 ms + 150 ms) must stay below the grace period, as it does with the
 	// daemon's defaults (seconds), otherwise the schedule breaks the protocol's synchrony assumption by construction.
-	DKGConf.KickoffGracePeriod = 1300 * time.Millisecond
+	DKGConf.KickoffGracePeriod = time.Duration(stats.N("VERIF_C06_GRACE_MS", 1300)) * time.Millisecond
 	var nobody, total atomic.Int64
 	defer func() {
 		if n, k := nobody.Load(), total.Load(); n*3 > k {
@@ -514,6 +534,7 @@ func TestC06Reshare(t *testing.T) {
 			addrs = append(addrs, nd.Addr)
 		}
 		bus.Policy = del.policy(seed, addrs)
+		bus.AsyncBundles = true
 		fail := func(v *viol) bool {
 			if lat := bus.MaxBundleLatency(""); lat > 1200*time.Millisecond && v.key != "C06/reshare-transition-time-differs" {
 				rec.Inconclusive(desc)
@@ -554,7 +575,7 @@ func TestC06Reshare(t *testing.T) {
 		members := append(append([]*Node{}, remaining...), joiners...)
 		fin := WaitFinished(members, 2, 45*time.Second)
 		if v := checkOutcome(fin, 2, partsOf(members), prev, t1, seed); v != nil {
-			if strings.Contains(v.detail, "transition time") && !strings.Contains(v.detail, ";") {
+			if transitionSkewOnly(v.detail, period) {
 				v.key = "C06/reshare-transition-time-differs"
 			}
 			fail(v)
@@ -634,7 +655,7 @@ func TestC06KnownFindingReplay(t *testing.T) {
 			}
 			fin := WaitFinished(members, 2, 45*time.Second)
 			if v := checkOutcome(fin, 2, partsOf(members), prev, 3, seed); v != nil {
-				if strings.Contains(v.detail, "transition time") && !strings.Contains(v.detail, ";") {
+				if transitionSkewOnly(v.detail, 1) {
 					reproduced = true
 					rec.Violation(t, "C06/reshare-transition-time-differs", v.detail+" || case: "+desc, nil)
 				} else {
